@@ -142,6 +142,9 @@ type c03In struct {
 	SNI      string   `json:"sni"`
 	Local    string   `json:"local"`
 	Storage  string   `json:"storage"`
+	// RealTLS: the ClientHello comes from a real crypto/tls client over TCP loopback against
+	// tls.Server(cfg.TLSConfig()); the served leaf is compared with GetCertificate's answer.
+	RealTLS bool `json:"real_tls,omitempty"`
 }
 
 type c03Env struct {
@@ -277,6 +280,42 @@ func (env *c03Env) snap() c12Snap {
 	return s
 }
 
+// realHandshake performs a real TLS handshake over TCP loopback against
+// tls.Server(cfg.TLSConfig()) with GetCertificate wrapped by observe; it returns the leaf the
+// client was served (nil if the handshake failed) and the client's handshake error.
+func (env *c03Env) realHandshake(sni string, observe func(*tls.ClientHelloInfo) (*tls.Certificate, error)) ([]byte, error) {
+	ln, err := net.Listen("tcp", "127.0.0.1:0")
+	if err != nil {
+		return nil, err
+	}
+	defer ln.Close()
+	tc := env.cfg.TLSConfig()
+	tc.GetCertificate = observe
+	done := make(chan struct{})
+	go func() {
+		defer close(done)
+		c, err := ln.Accept()
+		if err != nil {
+			return
+		}
+		defer c.Close()
+		c.SetDeadline(time.Now().Add(5 * time.Second))
+		tls.Server(c, tc).Handshake()
+	}()
+	var served []byte
+	d := &net.Dialer{Timeout: 5 * time.Second}
+	conn, herr := tls.DialWithDialer(d, "tcp", ln.Addr().String(), &tls.Config{ServerName: sni, InsecureSkipVerify: true})
+	if herr == nil {
+		if pcs := conn.ConnectionState().PeerCertificates; len(pcs) > 0 {
+			served = pcs[0].Raw
+		}
+		conn.Close()
+	}
+	ln.Close()
+	<-done
+	return served, herr
+}
+
 func snapEqual(a, b c12Snap) bool {
 	x, _ := json.Marshal(a)
 	y, _ := json.Marshal(b)
@@ -319,56 +358,83 @@ func (env *c03Env) lookupCase(w *emit.Writer, in c03In, class string) error {
 	env.setStorage(in.Storage)
 	env.cfg.DefaultServerName, env.cfg.FallbackServerName = in.Default, in.Fallback
 	before := *env.curSnap
-	hello := c03Hello(in.SNI, in.Local)
-	// oracle attributes
+	// oracle attributes and the call, on the ClientHello the server side sees
 	type at struct{ sup, valid, complete bool }
 	attrs := map[string]at{}
-	now := time.Now()
-	for _, id := range in.Certs {
-		c := env.pool[id]
-		valid := now.After(c.tls.Leaf.NotBefore.Add(time.Minute)) && now.Before(c.tls.Leaf.NotAfter.Add(-time.Minute))
-		if valid == c.Expired {
-			return fmt.Errorf("pool certificate %s: validity margin violated", id)
-		}
-		attrs[id] = at{hello.SupportsCertificate(&c.tls) == nil, valid, len(c.tls.Certificate) > 0 && c.tls.PrivateKey != nil}
-		if attrs[id].sup {
-			env.nSup++
-		} else {
-			env.nUnsup++
-		}
-	}
-	name, nerr := env.cfg.VerifNameFromClientHello(hello)
-	qual := nerr == nil && certmagic.SubjectQualifiesForCert(name)
-	ip := certmagic.VerifLocalIPFromConn(hello.Conn)
-	// what loadCertFromStorage would yield for this name (exact key, then first label -> "*")
+	var name string
+	var nerr, err, obsErr error
+	var qual, called bool
+	var ip, sni string
 	var loaded *c03Cert
-	if nerr == nil {
-		byName := map[string]*c03Cert{}
-		for _, id := range c03Storages[in.Storage] {
-			byName[env.stored[id].Names[0]] = env.stored[id]
-		}
-		l := byName[name]
-		if l == nil {
-			labels := strings.Split(name, ".")
-			labels[0] = "*"
-			l = byName[strings.Join(labels, ".")]
-		}
-		if l != nil && !l.Expired { // an expired one cannot be renewed without on-demand: load fails
-			loaded = l
-			covered := false
-			for _, san := range l.Names {
-				covered = covered || certmagic.MatchWildcard(name, san)
+	var cert *tls.Certificate
+	observe := func(hello *tls.ClientHelloInfo) (*tls.Certificate, error) {
+		called = true
+		sni = hello.ServerName
+		now := time.Now()
+		for _, id := range in.Certs {
+			c := env.pool[id]
+			valid := now.After(c.tls.Leaf.NotBefore.Add(time.Minute)) && now.Before(c.tls.Leaf.NotAfter.Add(-time.Minute))
+			if valid == c.Expired {
+				obsErr = fmt.Errorf("pool certificate %s: validity margin violated", id)
 			}
-			if !covered {
-				env.loadedNotCovering = append(env.loadedNotCovering, fmt.Sprintf("%s for %q", l.ID, name))
+			attrs[id] = at{hello.SupportsCertificate(&c.tls) == nil, valid, len(c.tls.Certificate) > 0 && c.tls.PrivateKey != nil}
+			if attrs[id].sup {
+				env.nSup++
+			} else {
+				env.nUnsup++
 			}
+		}
+		name, nerr = env.cfg.VerifNameFromClientHello(hello)
+		qual = nerr == nil && certmagic.SubjectQualifiesForCert(name)
+		ip = certmagic.VerifLocalIPFromConn(hello.Conn)
+		// what loadCertFromStorage would yield for this name (exact key, then first label -> "*")
+		if nerr == nil {
+			byName := map[string]*c03Cert{}
+			for _, id := range c03Storages[in.Storage] {
+				byName[env.stored[id].Names[0]] = env.stored[id]
+			}
+			l := byName[name]
+			if l == nil {
+				labels := strings.Split(name, ".")
+				labels[0] = "*"
+				l = byName[strings.Join(labels, ".")]
+			}
+			if l != nil && !l.Expired { // an expired one cannot be renewed without on-demand: load fails
+				loaded = l
+				covered := false
+				for _, san := range l.Names {
+					covered = covered || certmagic.MatchWildcard(name, san)
+				}
+				if !covered {
+					env.loadedNotCovering = append(env.loadedNotCovering, fmt.Sprintf("%s for %q", l.ID, name))
+				}
+			}
+		}
+		// the call
+		cert, err = env.cfg.GetCertificate(hello)
+		return cert, err
+	}
+	servedDiffers := false
+	if !in.RealTLS {
+		observe(c03Hello(in.SNI, in.Local))
+	} else {
+		served, herr := env.realHandshake(in.SNI, observe)
+		if !called {
+			w.Hist("real_tls_no_hello") // the client refused the server name: nothing reached the server
+			return nil
+		}
+		if err == nil && cert != nil && len(cert.Certificate) > 0 {
+			servedDiffers = herr != nil || served == nil || string(served) != string(cert.Certificate[0])
+		} else if herr == nil {
+			servedDiffers = true // handshake succeeded although GetCertificate gave nothing
 		}
 	}
-	// the call
-	cert, err := env.cfg.GetCertificate(hello)
+	if obsErr != nil {
+		return obsErr
+	}
 	e := &emit.Enc{}
 	e.Int(0)
-	encTables(e, in.SNI, in.Default, in.Fallback)
+	encTables(e, sni, in.Default, in.Fallback)
 	e.Int(in.Cap)
 	encSnap(e, before)
 	ids := append([]string{}, in.Certs...)
@@ -378,7 +444,7 @@ func (env *c03Env) lookupCase(w *emit.Writer, in c03In, class string) error {
 		a := attrs[id]
 		e.Str(id).Bool(a.sup).Bool(a.valid).Bool(a.complete)
 	}
-	e.Str(in.Default).Str(in.Fallback).Str(in.SNI).Str(ip)
+	e.Str(in.Default).Str(in.Fallback).Str(sni).Str(ip)
 	e.Bool(nerr != nil).Bool(qual)
 	if loaded != nil {
 		e.Bool(true)
@@ -407,6 +473,9 @@ func (env *c03Env) lookupCase(w *emit.Writer, in c03In, class string) error {
 			}
 		}
 		complete := len(cert.Certificate) > 0 && cert.PrivateKey != nil
+		if servedDiffers {
+			id = "?served-differs-from-answer"
+		}
 		e.Int(1).Str(id).Bool(complete)
 		res = "cert"
 		obs["cert"], obs["complete"] = id, complete
@@ -416,11 +485,15 @@ func (env *c03Env) lookupCase(w *emit.Writer, in c03In, class string) error {
 		obs["loadable"] = loaded.ID
 	}
 	sniClass := "plain"
-	norm := certmagic.VerifNormalizedName(in.SNI)
+	norm := certmagic.VerifNormalizedName(sni)
+	if in.RealTLS {
+		w.Hist("real_tls_handshake")
+		obs["sni_seen_by_server"] = sni
+	}
 	switch {
 	case norm == "":
 		sniClass = "empty"
-	case norm != in.SNI:
+	case norm != sni:
 		sniClass = "needs-normalizing"
 	case nerr != nil:
 		sniClass = "idna-error"
@@ -610,7 +683,7 @@ func runC03(tier string, seed int64, outdir string, replay string) error {
 	r := mrand.New(mrand.NewSource(seed))
 	subsets := c03Subsets(len(c03PoolDef), 3)
 	total := 0
-	quickTarget := 14000.0
+	quickTarget := 40000.0
 	// number of cases in the full universe (computed by a dry pass)
 	perCap := 0
 	for _, q := range c03Queries {
@@ -697,6 +770,25 @@ func runC03(tier string, seed int64, outdir string, replay string) error {
 	w.Meta.Exhaustive = tier == "thorough"
 	if tier != "thorough" {
 		w.Meta.Notes = append(w.Meta.Notes, fmt.Sprintf("quick tier: %d of the %d lookup cases of the universe, sampled with VERIF_SEED", total, universeSize))
+	}
+	// ---- real crypto/tls handshakes over TCP loopback (the ClientHello is the real client's) ----
+	nReal := 150
+	if tier == "thorough" {
+		nReal = 1500
+	}
+	realNames := []string{"", "a.x", "A.X", "b.x", "a.b.x", "q.b.x", "q.x", "q.r.x", "zz.x", "fb.y", "x", "xn--bcher-kva.x", "a.x."}
+	for i := 0; i < nReal; i++ {
+		perm := r.Perm(len(c03PoolDef))
+		n := 1 + r.Intn(4)
+		ids := make([]string, n)
+		for k := 0; k < n; k++ {
+			ids[k] = c03PoolDef[perm[k]].ID
+		}
+		cf := c03Configs[r.Intn(len(c03Configs))]
+		in := c03In{Certs: ids, Cap: []int{0, n}[r.Intn(2)], Default: cf[0], Fallback: cf[1], SNI: realNames[r.Intn(len(realNames))], Local: "127.0.0.1", Storage: "empty", RealTLS: true}
+		if err := env.lookupCase(w, in, "real-tls"); err != nil {
+			return err
+		}
 	}
 	// ---- random larger caches (almost full but not full: 9 of 10, 10 of 11) ----
 	nBig := 600
